@@ -18,17 +18,19 @@ Has(e, f) == f \in DOMAIN e
 MaxMsg == B4!MOpt(57, <<5, 220>>)
 \* the caller's own modifiers (harness/leasesim): host name "leasesim", two more requested options, class identifier "vh"
 UserMods == <<B4!MOpt(12, <<108, 101, 97, 115, 101, 115, 105, 109>>), B4!M("reqopts", <<42, 67>>), B4!MOpt(60, <<118, 104>>)>>
-Mac == <<2, 0, 0, 0, 0, 7>>
 Kind4(tx) == LET t == B4!OptVal(tx.pkt, 53) IN IF t = <<1>> THEN "first" ELSE IF t = <<3>> THEN "second" ELSE "other"
 SidOf(pkt) == B4!OptVal(pkt, 54)
 DestOf(sid) == IF sid = <<>> THEN ":67" ELSE ToString(sid[1]) \o "." \o ToString(sid[2]) \o "." \o ToString(sid[3]) \o "." \o ToString(sid[4]) \o ":67"
 
+\* o.cfg: the client's configuration (the address it was told to send to, its hardware address)
 Agree4(x, o) ==
-    LET n == Len(o.txs) IN
+    LET n == Len(o.txs)
+        Mac == o.cfg.mac
+    IN
     /\ o.res.kind = x.result
     /\ (x.result \in {"lease", "nak"} => o.res.offer = x.oi /\ o.res.final = x.fi)     \* that very offer and ACK / NAK
     /\ [i \in 1..n |-> Kind4(o.txs[i])] = x.txs
-    /\ \A i \in 1..n : o.txs[i].dest = "255.255.255.255:67"
+    /\ \A i \in 1..n : o.txs[i].dest = o.cfg.srv
     \* DISCOVER: hardware address, parameter request list, message type, maximum message size
     /\ \A i \in 1..n : x.txs[i] = "first" =>
            o.txs[i].pkt = B4!Build("Discovery", [hw |-> Mac], <<MaxMsg>> \o UserMods, o.txs[i].pkt.xid) /\ o.txs[i].pkt = o.txs[1].pkt
@@ -43,7 +45,7 @@ Agree4(x, o) ==
            LET r == o.renew sid == x.offer[1].sid IN
            /\ Len(r.txs) >= 1
            /\ r.txs[1].pkt = B4!Build("RenewFromAck", r.ackpkt, <<MaxMsg>> \o UserMods, r.ackpkt.xid)
-           /\ \A i \in 1..Len(r.txs) : r.txs[i].pkt = r.txs[1].pkt /\ r.txs[i].dest = "255.255.255.255:67"
+           /\ \A i \in 1..Len(r.txs) : r.txs[i].pkt = r.txs[1].pkt /\ r.txs[i].dest = o.cfg.srv
            /\ r.ok = (sid # "B")                       \* the scripted NAK comes from server B
            /\ (r.ok => r.sameoffer)
     \* release: exactly one RELEASE for the leased address to the lease's server
@@ -58,7 +60,7 @@ Agree6(x, o) ==
     LET n == Len(o.txs) IN
     /\ o.res.kind = x.result /\ o.res.final = x.fi
     /\ [i \in 1..n |-> Kind6(o.txs[i])] = x.txs
-    /\ \A i \in 1..n : o.txs[i].dest = "[ff02::1:2]:547"
+    /\ \A i \in 1..n : o.txs[i].dest = o.cfg.srv
     \* SOLICIT: a rapid-commit option exactly when asked for; all retransmissions identical
     /\ \A i \in 1..n : x.txs[i] = "first" =>
            LET d == Dec6(o.txs[i].hex) IN
